@@ -191,6 +191,36 @@ CLAIMED.update({
             "Payload streaming, the 5 ms credit timeout and retirement after a mismatched LGOOD (unobservable: the link leaves U0) not covered.", "DESIGN.md §6 C39"),
 })
 
+# Additions made after the independently seeded changes (see DESIGN.md §13): appended to the level texts.
+ADDENDA = {
+    "C02": " Also packets with a non-data first byte and an embedded '<data PID> body CRC16'.",
+    "C06": " A second Sub wires token detector (generated 7-bit device address) + CRC + timer + non-standalone decoder as device.py/control.py do; near-miss SETUP-like tokens (bad check nibble / CRC5 / foreign address) directly before valid data.",
+    "C07": " Control writes with a data stage abandoned after SETUP or 1-2 data packets, then control reads.",
+    "C10": " Transfers before the judged request may be abandoned or lose an ACK; CLEAR_FEATURE over all 32 recipients and arbitrary 16-bit selectors.",
+    "C14": " A second rig with stream endpoints 1 and 9 (IN+OUT) checks clear-halts naming endpoint numbers >= 8.",
+    "C17": " Plus configurations with signal_domain != 'usb' (signal changing on usb cycle boundaries).",
+    "C20": " Traffic addressed to another device address; rx_active tails of 0-6 cycles after the last byte.",
+    "C21": " Bus resets (SE0 >= 305 cycles) and short SE0 glitches between SOFs: no new_frame without a received SOF.",
+    "C22": " Plus a Sub on the real handle_clocking configuration (record with rst) with RxCmds inside/around the 60000-cycle start-up window.",
+    "C23": " op_mode 0/2 mixed between packets of one case; a third of mode changes start the packet 0-6 cycles after the control change.",
+    "C25": " Plus a Sub switching op_mode to non-driving at any cycle of a packet in flight.",
+    "C30": " Plus token sequences on one detector without reset (second exhaustive pass with an accepted neighbour token first) and the USB2 data receiver's acceptance under rx_valid gaps (C02's Sub reused).",
+    "C33": " enable_scrambling switched per word incl. the end-of-training shape on the real physical layer.",
+    "C38": " Link-down instants also aimed at received headers' last word (-2..+8); a header counted by the advertisement must have been accepted (offered on the queue or LGOODed); request strobes pulsed during the down period.",
+    "C40": " Long packets (1020-1024, 2^k+-1) in 1 of 40.",
+    "C41": " Warm-reset pulses (1-640 cycles) injected after any script step incl. Hot Reset.Active/Exit and recovery substates.",
+    "C45": " Plus an open-loop Sub strobing requests at every offset around the queue's acceptance cycle.",
+    "C47": " Whole 128-bit header generated (link-control word incl. Delayed bit); plus a Sub on the real USB3ProtocolLayer with link.in_reset pulses around the transfer cycle.",
+    "C48": " wLength over the full 16 bits with weight on 2^k, 2^k+-1.",
+    "C51": " Aborts releasing CS together with the SCK edge; over-long frames with command-shaped surplus clocks.",
+    "C52": " START after an ACKed read and START directly after START are generated.",
+    "C56": " Extra triggers in every cycle in which sampling is high, including the last.",
+}
+for _k, _v in ADDENDA.items():
+    if _k in CLAIMED:
+        t = CLAIMED[_k]
+        CLAIMED[_k] = (t[0], t[1] + _v, t[2], t[3])
+
 # Only checks listed here are claimed in MANIFEST.json (verified quiet on the current tree, sensitive to their mutants).
 READY = [f"C{i:02d}" for i in range(1, 58)]
 
